@@ -440,7 +440,7 @@ impl NetSim {
         }
     }
 
-    fn run_case(&self, rng: &mut StdRng, steps: usize, out: &mut Out) {
+    fn run_case(&self, case_idx: usize, rng: &mut StdRng, steps: usize, out: &mut Out) {
         let _g = self.rt.enter();
         // committee with at most f weight Byzantine
         let weights: Vec<u64> = match rng.gen_range(0..4) {
@@ -500,6 +500,10 @@ impl NetSim {
             } else if roll < 63 {
                 let i = *correct.choose(rng).unwrap();
                 self.step(&mut c, i, json!({"op":"tick"}), out);
+                // the timer of the same replica expires again before anything else happens (re-send path)
+                if rng.gen_bool(0.35) {
+                    self.step(&mut c, i, json!({"op":"tick"}), out);
+                }
             } else if roll < 70 {
                 self.propose(&mut c, out);
             } else if roll < 85 {
@@ -524,7 +528,8 @@ impl NetSim {
         // network is fair meanwhile, so blocks get certified; a replica stuck waiting for its disk is killed; then every
         // node process crashes (what was not durable is lost) and the disks recover. From here on the case is run and
         // monitored on the real replicas only (the model has no notion of a handler waiting for the disk).
-        if rng.gen_bool(0.5) {
+        let episode = case_idx % 3;
+        if episode == 1 {
             c.unmodelled = true;
             out.count("slow_storage_episode");
             for rig in c.rigs.values() {
@@ -556,6 +561,42 @@ impl NetSim {
             }
             for rig in c.rigs.values() {
                 *rig.engine.0.auto_persist.lock().unwrap() = true;
+            }
+        }
+        // ---- isolated-laggard episode (every other remaining case): one correct replica R hears nothing for a few timer
+        // periods while everything it sends is delivered (asymmetric partition) and the Byzantine validators are silent;
+        // the others therefore move on as far as they can without hearing from R again and re-send on every timer expiry
+        // into the void. Only modelled operations (tick / msg), so the model follows. After the heal R has to be pulled
+        // forward by what the others RE-send.
+        else if episode == 2 {
+            out.count("laggard_episode");
+            let r = *correct.choose(rng).unwrap();
+            c.pool.clear();
+            c.proposals.clear();
+            let periods = rng.gen_range(2..5);
+            for _ in 0..periods {
+                for i in &correct {
+                    self.step(&mut c, *i, json!({"op":"tick"}), out);
+                }
+                let mut guard = 0;
+                while (!c.pool.is_empty() || !c.proposals.is_empty()) && guard < 3000 {
+                    guard += 1;
+                    if !c.proposals.is_empty() {
+                        self.propose(&mut c, out);
+                        continue;
+                    }
+                    let p = c.pool.remove(0);
+                    if c.byz.contains(&p.from) || p.to == r {
+                        continue;
+                    }
+                    self.step(&mut c, p.to, json!({"op":"msg","from":p.from,"sig_ok":p.sig_ok,"msg":p.msg}), out);
+                    for i in &correct {
+                        if *i != r {
+                            c.sync_blocks(*i);
+                        }
+                    }
+                    settle(&self.rt);
+                }
             }
         }
         // ---- C06: fair synchronous suffix. Byzantine validators are silent, nothing is lost, timers fire when idle.
@@ -613,8 +654,8 @@ impl Prop for NetSim {
     fn adaptive(&mut self, opts: &Opts, out: &mut Out) -> bool {
         let mut rng = opts.rng();
         let cases = (opts.n / 150).max(2);
-        for _ in 0..cases {
-            self.run_case(&mut rng, 150, out);
+        for k in 0..cases {
+            self.run_case(k + 1, &mut rng, 150, out);
             if self.stalled.get() {
                 break;
             }
